@@ -17,14 +17,14 @@ Local Open Scope Z_scope.
 Theorem C15_every_leaf_fits_in_every_draw : forall file idxs i,
   In (file, idxs) scenario_leaves -> In i idxs ->
   exists tag key t rs, nth_error distinct_leaves i = Some (tag, key, t) /\ req_of tag key reqs = Some rs /\
-    forall w, den t w -> exists r, In r rs /\ Gv r w.
+    forall w, den kinds t w -> exists r, In r rs /\ Gv r w.
 Proof. exact every_leaf_fits. Qed.
 
 (* the analysis behind it, for any template and any requirement *)
-Theorem C15_abstraction_is_sound : forall t w, den t w -> G (abs t) w.
+Theorem C15_abstraction_is_sound : forall ks t w, den ks t w -> G (abs (map aklang ks) t) w.
 Proof. exact abs_sound. Qed.
 
-Theorem C15_fit_is_sound : forall t r, fits (abs t) r = true -> forall w, den t w -> Gv r w.
+Theorem C15_fit_is_sound : forall ks t r, fits (abs (map aklang ks) t) r = true -> forall w, den ks t w -> Gv r w.
 Proof. exact fits_every_draw. Qed.
 
 Theorem C15_generated_decimal_amounts_publish_exactly : forall n j k, 0 <= n -> (j <= k)%nat ->
